@@ -134,6 +134,8 @@ struct Peer {
 	uint64_t wait_enter_ns = 0, wait_return_ns = 0;
 	bool wait_returned_success = false;
 	bool notify_consumed = false;
+	bool notify_unanswered = false;
+	bool hdr_seen_before_wait = false;
 	bool stray_since_success = false;
 	bool may_downgrade = false;
 	bool expect_immediate_open = false;
